@@ -801,6 +801,9 @@ func (a *Authenticator) handleSessionResumption(ctx context.Context, sessionID s
 			return nil, fmt.Errorf("failed to setup stream encryption: %w", err)
 		}
 	}
+	if err := a.checkResumedSession(negotiation); err != nil {
+		return nil, err
+	}
 
 	slog.Info(fmt.Sprintf("🔐 SERVER: Successfully resumed session %s", redactSessionID(sessionID)), "destination", "cedar")
 
@@ -1400,6 +1403,9 @@ func (a *Authenticator) storeClientSession(negotiation *SecurityNegotiation, dur
 	}
 	_ = policy.Set("AuthMethods", string(negotiation.NegotiatedAuth))
 	_ = policy.Set("CryptoMethods", string(negotiation.NegotiatedCrypto))
+	// Record whether the session was actually authenticated (as storeSession does on
+	// the server) so a later resumption can be held to a REQUIRED authentication policy.
+	_ = policy.Set("Authenticated", negotiation.Authentication)
 	// Store User information for session resumption
 	if negotiation.User != "" {
 		_ = policy.Set("User", negotiation.User)
@@ -1561,6 +1567,11 @@ func (a *Authenticator) resumeSession(ctx context.Context, entry *SessionEntry, 
 		if rv, ok := entry.Policy().EvaluateAttrString("RemoteVersion"); ok {
 			negotiation.ServerConfig.RemoteVersion = rv
 		}
+		// Restore the session's actual authentication outcome (negotiated, claim and
+		// inherited sessions all record it).
+		if authed, ok := entry.Policy().EvaluateAttrBool("Authenticated"); ok {
+			negotiation.Authentication = authed
+		}
 	}
 
 	// Renew the session lease
@@ -1572,6 +1583,9 @@ func (a *Authenticator) resumeSession(ctx context.Context, entry *SessionEntry, 
 		if err := a.setupStreamEncryption(negotiation); err != nil {
 			return nil, fmt.Errorf("failed to setup stream encryption: %w", err)
 		}
+	}
+	if err := a.checkResumedSession(negotiation); err != nil {
+		return nil, err
 	}
 
 	return negotiation, nil
@@ -1876,6 +1890,27 @@ func (a *Authenticator) plaintextOutcome(negotiation *SecurityNegotiation) error
 	}
 	if a.config != nil && (a.config.Encryption == SecurityRequired || a.config.Integrity == SecurityRequired) {
 		return fmt.Errorf("encryption/integrity is required by local policy but no session key could be established with the peer")
+	}
+	return nil
+}
+
+// checkResumedSession holds a resumed session to this endpoint's own policy exactly
+// as a fresh handshake is: the reported Encryption is the stream's real state (not
+// what the cached key's protocol name suggests), REQUIRED encryption/integrity needs
+// a stream that really encrypts, and REQUIRED authentication needs a session that
+// was recorded as authenticated. Without this a session negotiated under a laxer
+// policy (or a cache entry with no usable key) could be resumed by a handshake
+// whose policy it does not satisfy.
+func (a *Authenticator) checkResumedSession(negotiation *SecurityNegotiation) error {
+	negotiation.Encryption = a.stream != nil && a.stream.IsEncrypted()
+	if a.config == nil {
+		return nil
+	}
+	if !negotiation.Encryption && (a.config.Encryption == SecurityRequired || a.config.Integrity == SecurityRequired) {
+		return fmt.Errorf("resumed session is not encrypted but local policy requires encryption/integrity")
+	}
+	if a.config.Authentication == SecurityRequired && !negotiation.Authentication {
+		return fmt.Errorf("resumed session is not authenticated but local policy requires authentication")
 	}
 	return nil
 }
